@@ -76,4 +76,18 @@ def freedInactive (active inactive : List (String × (Nat → α))) (free : List
 
 end
 
+section
+variable {α : Type} [Add α] [Mul α] [OfNat α 0]
+
+/-- weight of one table in layer `l`: `sum_i mix_i[l] * mass(name_i)` -/
+def tableWeight (mass : String → α) (tbl : List (String × (Nat → α))) (l : Nat) : α :=
+  tbl.foldl (fun a p => a + p.2 l * mass p.1) 0
+
+/-- taurex/mixin/mixins.py: `MakeFreeMixin.compute_mu_profile` (as repaired): the mean molecular weight of the mixture the
+    chemistry PUBLISHES — the active table plus the inactive table, each row times the molecule's mass -/
+def muOf (mass : String → α) (active inactive : List (String × (Nat → α))) (l : Nat) : α :=
+  tableWeight mass active l + tableWeight mass inactive l
+
+end
+
 end Taurex.MixLookup
